@@ -33,10 +33,21 @@ CORPUS = [
          files={"main.ninja": b"rule link\n  command = true @$rspf $in\n  description = LINK $out from $in\n  rspfile = $rspf\n"
                               b"  rspfile_content = $in_newline -- $in\n  depfile = $out.d\nbuild o$ ut: link a$ b c\n  rspf = o.rsp\n"}, oracle=True,
          note="9d7b725: $in/$out were shell-quoted only in `command`"),
+    dict(name="dollar-at-end-of-file", files={"main.ninja": b"x = abc$"}, oracle=False),
+    dict(name="deferred-evaluation-errors",
+         files={"main.ninja": b"include r.ninja\nbuild o: r i\nbuild p: q i\n",
+                "r.ninja": b"rule q\n  command = a ${b+c} $!\n  description = ${open\nrule r\n  command = abc$"}, oracle=False),
     dict(name="build-path-build-level-binding",
          files={"main.ninja": b"rule cc\n  command = cc $in -o $out $flags\nx = top\nbuild $x.o: cc $x.c\n  x = inner\n"}, oracle=True, flagged=[0],
          note="known finding: build-statement paths are evaluated before the build-level bindings"),
 ]
+
+# a chain of 66 distinct files, alternately included and subninja'd: the 64th nested file is refused (4a0983c)
+_chain = {"main.ninja": b"v0 = 0\ninclude c1.ninja\n"}
+for _i in range(1, 66):
+    _chain["c%d.ninja" % _i] = b"v%d = $v%d.\n%s c%d.ninja\nbuild o%d: phony\n" % (_i, _i - 1, b"include" if _i % 2 else b"subninja", _i + 1, _i)
+_chain["c66.ninja"] = b"never = reached\n"
+CORPUS.append(dict(name="deep-include-chain", files=_chain, oracle=False))
 
 # ------------------------------------------------------------------ generator
 
@@ -353,7 +364,7 @@ class Gen:
                     lines.append(b"  generator = 1"); bl.add(b"generator")
         # the one place where llbuild knowingly differs from ninja (known finding): a path of the statement uses a
         # variable that the statement's own block binds
-        if rng.random() < 0.04 and self.kind == "oracle":
+        if rng.random() < 0.015 and self.kind == "oracle":
             v = rng.choice(PATH_VARS)
             lines[0] = lines[0].replace(b"build ", b"build " + ref(v, rng) + b"/", 1)
             lines.append(b"  " + v + b" = " + self.safe_word())
@@ -760,7 +771,7 @@ def oracle(chk, run, case, wd, impl, stats):
         if first in by_out:
             ncmd = by_out[first]["command"]
         else:
-            rcc, outc, errc = ninja_run(wd, ["-t", "commands", first])
+            rcc, outc, errc = ninja_run(wd, ["-t", "commands", "--", first])     # "--": the tool parses options of its own
             if rcc != 0:
                 bad.append(("commands-failed", "ninja -t commands failed for %r: %s" % (show(first), show(errc)[-200:]), dict(edge_index=i)))
                 continue
